@@ -10,15 +10,16 @@ P2 == <<One(100), One(7)>>
 P2eq == <<One(7), One(7)>>
 P3eq == <<One(7), One(7), One(100)>>
 Silent == <<>>
-Prog1_3 == [a \in Party |-> IF a = 0 THEN P3 ELSE Silent]
-Prog1_3eq == [a \in Party |-> IF a = 0 THEN P3eq ELSE Silent]
-Prog1_2 == [a \in Party |-> IF a = 0 THEN P2 ELSE Silent]
-Prog2_2 == [a \in Party |-> IF a = 0 THEN P2 ELSE P2eq]
-ProgArr == [a \in Party |-> IF a = 0 THEN <<Arr(<<7, 100>>), Arr(<<100, 7>>)>> ELSE Silent]
-ProgArr2 == [a \in Party |-> <<Arr(<<7, 100>>)>>]
-ProgMix == [a \in Party |-> IF a = 0 THEN <<Arr(<<7, 100, 7>>), Arr(<<100, 7>>)>> ELSE Silent]
+Prog1_3 == <<P3>>
+Prog1_3eq == <<P3eq>>
+Prog1_2 == <<P2>>
+Prog2_2 == <<P2, P2eq>>
+Prog2_21 == <<P2, <<One(7)>>>>
+ProgArr == <<<<Arr(<<7, 100>>), Arr(<<100, 7>>)>>>>
+ProgArr2 == <<<<Arr(<<7, 100>>)>>, <<Arr(<<7, 100>>)>>>>
+ProgMix == <<<<Arr(<<7, 100, 7>>), Arr(<<100, 7>>)>>>>
 NoValMC == -1
-Prog3_1 == [a \in Party |-> <<One(7 + 93 * a)>>]
+Prog3_1 == <<<<One(7)>>, <<One(100)>>, <<One(193)>>>>
 NoTagNL == <<>>
 TagNLa == <<{0}, {1}, {}>>       \* first tag starts with an NL lookalike, second ends with one
 TagNLb == <<{1}, {}, {0}>>
